@@ -34,6 +34,10 @@ type Mismatch struct {
 	Model string   `json:"model"`
 	// Oracle verdict for the (shrunk) line on the real code.
 	Oracle string `json:"oracle,omitempty"`
+	// what was seen when the disagreement was first detected (before shrinking)
+	OrigLine  string `json:"orig_line,omitempty"`
+	OrigGo    string `json:"orig_go,omitempty"`
+	OrigModel string `json:"orig_model,omitempty"`
 }
 
 type OracleFail struct {
@@ -242,7 +246,7 @@ func runView(v View, seed uint64, n int, driver, corpusDir string) *Report {
 			g, o, tg, ml := safeExecModel(v, small)
 			_, _, tg0 := safeExec(v, lines[i])
 			m, _ := runDriver(driver, []string{ml})
-			mm := Mismatch{Line: small, Go: g, Oracle: o, Tags: append(tg, tg0...)}
+			mm := Mismatch{Line: small, Go: g, Oracle: o, Tags: append(tg, tg0...), OrigLine: lines[i], OrigGo: goOuts[i], OrigModel: modelOuts[i]}
 			if len(m) == 1 {
 				mm.Model = m[0]
 			}
